@@ -1,7 +1,7 @@
 // ===== SPEC (nint): the abstract value of an NInt and the reference functions of C06 =====
 verus! {
 
-broadcast use lemma_i64_not, int_and_i64, int_or_i64, int_xor_i64, biguint_nonneg, bigint_ext, lemma_trunc_div_i64_range;
+broadcast use lemma_i64_not, int_and_i64, int_or_i64, int_xor_i64, biguint_nonneg, bigint_ext, lemma_trunc_div_i64_range, int_sqrt_bounds;
 
 impl View for NInt {
     type V = int;
